@@ -1,0 +1,30 @@
+//go:build verif
+
+package plenccodec
+
+// Read-only views of unexported codec internals for the verification harness
+// (/verif). Compiled only with -tags verif.
+
+// VerifField describes one encoded field of a StructCodec.
+type VerifField struct {
+	Index int
+	Name  string
+	Codec Codec
+	Tag   []byte
+	Deref bool
+}
+
+// VerifFields returns the encoded fields in declaration order.
+func (c *StructCodec) VerifFields() []VerifField {
+	out := make([]VerifField, len(c.fields))
+	for i, f := range c.fields {
+		out[i] = VerifField{Index: f.index, Name: f.name, Codec: f.codec, Tag: f.tag, Deref: f.deref}
+	}
+	return out
+}
+
+// VerifName returns the struct's type name.
+func (c *StructCodec) VerifName() string { return c.rtype.Name() }
+
+// VerifKV returns the key and value codecs of a MapCodec.
+func (c *MapCodec) VerifKV() (Codec, Codec) { return c.keyCodec, c.valueCodec }
